@@ -139,7 +139,8 @@ def _run(prop, tier, seed, only, known, stage, t0):
         tmo = h.timeout if tier == "quick" else max(h.timeout, 1800)
         if os.environ.get("VERIF_TIMEOUT"):   # probing aid
             tmo = int(os.environ["VERIF_TIMEOUT"])
-        mem = h.mem_gb if tier == "quick" else max(h.mem_gb, 12)
+        # thorough gives the heavy instances more room; light ones (<= 4 GB) keep a small cap so many run at once
+        mem = h.mem_gb if tier == "quick" else (max(h.mem_gb, 12) if h.mem_gb > 4 else 2 * h.mem_gb)
         budget.acquire(mem)
         try:
             r = kani.run_harness(stage, h.full, h.profile, tmo, mem, solver=solver, should_panic=h.should_panic)
